@@ -14,13 +14,14 @@
    from_proc p l = the messages of l tagged p, in order.  Semaphores: 0 _sem, 1 _rlock, 2 _wlock,
    nls p = lock of process p's _notempty.  qt_tr = 1 for a thread holding a capacity token for
    a message that is neither buffered nor in the pipe (put before its append, feeder between
-   pop and send, get between receive and the release of _sem) -- AND for a feeder whose thread
-   has ended (pc 14 of p_feed: `ForkingPickler.dumps(obj)` raised, Queue._feed returned): that
-   token is never given back, see C16_lose_nothing_refuted.  ftr t = the message a feeder has
-   popped and not sent (for an ended feeder: the message it dropped).  Messages >= 1000 are the
-   ones the harness puts as objects that cannot be pickled.  gheld t = the message a get has
-   received and not yet returned; rcount m res = number of finished get calls in res that
-   returned m. *)
+   pop and send or between a failed serialisation and the release of that message's token,
+   get between receive and the release of _sem).  ftr t = the message a feeder has popped and
+   neither sent nor dropped yet.  Messages >= 1000 are the ones the harness puts as objects that
+   cannot be pickled: picklable m = (m < 1000); pk l = the picklable messages of l, in order.
+   Since the repair 36337df of Queue._feed an object whose serialisation fails is dropped by the
+   feeder, which gives its capacity token back and goes on (p_feed 14-15).  gheld t = the message
+   a get has received and not yet returned; rcount m res = number of finished get calls in res
+   that returned m. *)
 From Coq Require Import ZArith List Bool.
 From BV Require Import Model.SemProg Model.QueueProg Model.QueueCode Proofs.SemProgProofs Proofs.QueueInvProofs Proofs.QueueProofs.
 From BV Require Gen.P_queue.
@@ -56,22 +57,24 @@ Theorem C16_capacity : forall M g, QReach M g ->
 Proof. exact G_queue_capacity. Qed.
 Print Assumptions C16_capacity.
 
-(* order: per producer, appended = sent ++ held by the feeder ++ buffered (in order); the pipe
+(* order: per producer and restricted to the messages that can be serialised (pk), appended =
+   sent ++ held by the feeder ++ buffered (in order) -- so a feeder writes EXACTLY the picklable
+   messages its process's puts appended, in their order, whatever was dropped in between; the pipe
    is FIFO; the send log is an ORDER-PRESERVING merge of the producers' send logs: the entries
    written by p's feeder are, in order, exactly slog p (this replaces the former count identity,
    which is kept as the last conjunct) *)
 Theorem C16_fifo : forall M g, QReach M g ->
-    (forall p, plog (nth p (procs g) dps) =
-               slog (nth p (procs g) dps) ++ ftr (nth (2 * p + 1) (qthr g) dqt) ++ buf (nth p (procs g) dps)) /\
+    (forall p, pk (plog (nth p (procs g) dps)) =
+               slog (nth p (procs g) dps) ++ pk (ftr (nth (2 * p + 1) (qthr g) dqt)) ++ pk (buf (nth p (procs g) dps))) /\
     map snd (sendlog g) = getlog g ++ pipe g /\
     (forall p, from_proc p (sendlog g) = slog (nth p (procs g) dps)) /\
     (forall m, zcnt m (map snd (sendlog g)) = sumz (fun ps => zcnt m (slog ps)) (procs g)).
 Proof. exact G_queue_fifo. Qed.
 Print Assumptions C16_fifo.
 
-(* no loss, no duplication: each message, with its multiplicity among the accepted puts, is
-   exactly: received + in the pipe + held by a feeder + buffered *)
-Theorem C16_no_loss_no_dup : forall M g m, QReach M g ->
+(* no loss, no duplication, for every message whose serialisation succeeds: with its multiplicity
+   among the accepted puts it is exactly: received + in the pipe + held by a feeder + buffered *)
+Theorem C16_no_loss_no_dup : forall M g m, QReach M g -> picklable m = true ->
     sumz (fun ps => zcnt m (plog ps)) (procs g) =
     zcnt m (getlog g) + zcnt m (pipe g)
     + psum (fun p => zcnt m (ftr (nth (2 * p + 1) (qthr g) dqt))) (length (procs g))
@@ -90,7 +93,7 @@ Print Assumptions C16_get_returns_received.
 
 (* put to get: each message, with its multiplicity among the accepted puts, is exactly: returned
    by a get + held by a get about to return it + in the pipe + held by a feeder + buffered *)
-Theorem C16_put_get_exact : forall M g m, QReach M g -> m <> E_EMPTY ->
+Theorem C16_put_get_exact : forall M g m, QReach M g -> m <> E_EMPTY -> picklable m = true ->
     sumz (fun ps => zcnt m (plog ps)) (procs g) =
     sumz (fun t => rcount m (qresults t)) (qthr g) + sumz (fun t => zcnt m (gheld t)) (qthr g)
     + zcnt m (pipe g)
@@ -99,35 +102,42 @@ Theorem C16_put_get_exact : forall M g m, QReach M g -> m <> E_EMPTY ->
 Proof. exact G_put_get_exact. Qed.
 Print Assumptions C16_put_get_exact.
 
-(* ---- the feeder's failure path.  "Lose nothing" is FALSE of the code: once a feeder thread has
-   ended, what its process puts afterwards is accepted and never delivered, and the capacity
-   token of the dropped message is never returned.  Witness (capacity 2; process 0: put(an
-   object that cannot be pickled), put(12); process 1: get()): a reachable state in which no
-   step is possible any more, both puts returned None, 12 is in the buffer of process 0,
-   nothing was ever written to the pipe, the consumer waits in recv, and the capacity semaphore
-   is 0 although a single item is waiting. *)
-Theorem C16_lose_nothing_refuted :
+(* ---- the feeder's failure path (repaired in /repo by 36337df; the former refutation is now the
+   positive statement).  An object that cannot be serialised is the ONLY loss: it is never
+   written to the pipe and never received; by C16_capacity it costs no capacity (the feeder at
+   pc 14 holds its token "in transit" and its next step releases it: C16_step); by
+   C16_no_loss_no_dup / C16_put_get_exact / C16_fifo every other object is accounted for, in
+   order.  A feeder never ends, and what it drops is only what it could not serialise. *)
+Theorem C16_unpicklable_is_the_only_loss : forall M g m, QReach M g -> picklable m = false ->
+    zcnt m (map snd (sendlog g)) = 0 /\ zcnt m (getlog g) = 0 /\ zcnt m (pipe g) = 0.
+Proof. exact G_unpicklable_never_sent. Qed.
+Print Assumptions C16_unpicklable_is_the_only_loss.
+
+Theorem C16_feeder_never_ends : forall M g t, QReach M g -> In t (qthr g) -> qfeeder t = true ->
+    qfin t = false /\ qexited P_queue.code t = false.
+Proof. exact G_feeder_never_ends. Qed.
+Print Assumptions C16_feeder_never_ends.
+
+Theorem C16_feeder_drops_only_unpicklable : forall M g t, QReach M g -> In t (qthr g) ->
+    qfeeder t = true -> qpc t = 14%nat -> picklable (r2 (qrg t)) = false.
+Proof. exact G_feeder_drops_only_unpicklable. Qed.
+Print Assumptions C16_feeder_drops_only_unpicklable.
+
+(* regression case = the witness of the former refutation, continued (capacity 2; process 0:
+   put(an object that cannot be pickled), put(12); process 1: get()): in the end state nothing
+   can move, both puts returned None, the feeder is alive and asleep, it wrote 12 and only 12,
+   the get RETURNED 12, buffer and pipe are empty and the capacity semaphore is back at 2 *)
+Example C16_later_put_is_delivered :
   QReach 2 qlost_state /\
   (forall i go, qstep P_queue.code qlost_state i go = None) /\
   map snd (qresults (nth 0 (qthr qlost_state) dqt)) = [V_NONE; V_NONE] /\
   plog (nth 0 (procs qlost_state) dps) = [1000; 12] /\
-  qexited P_queue.code (nth 1 (qthr qlost_state) dqt) = true /\
-  ftr (nth 1 (qthr qlost_state) dqt) = [1000] /\
-  buf (nth 0 (procs qlost_state) dps) = [12] /\ sendlog qlost_state = [] /\ pipe qlost_state = [] /\
-  (let c := nth 2 (qthr qlost_state) dqt in qfin c = false /\ qcid c = 1%nat /\ qpc c = 3%nat) /\
-  qv 0 qlost_state = 0 /\
-  sumz blen (procs qlost_state) + Z.of_nat (length (pipe qlost_state)) = 1.
-Proof. exact qlost_witness. Qed.
-Print Assumptions C16_lose_nothing_refuted.
-
-(* what remains true (partial): a feeder's thread ends only over a message it cannot serialise;
-   together with C16_fifo / C16_put_get_exact: the messages a feeder wrote are a prefix of what
-   its process's puts appended, and the only message that is neither sent nor buffered is the one
-   the ended feeder dropped *)
-Theorem C16_feeder_ends_only_on_unpicklable_partial : forall M g t, QReach M g -> In t (qthr g) ->
-    qfeeder t = true -> qpc t = 14%nat -> picklable (r2 (qrg t)) = false.
-Proof. exact G_feeder_ends_only_on_unpicklable. Qed.
-Print Assumptions C16_feeder_ends_only_on_unpicklable_partial.
+  (let f := nth 1 (qthr qlost_state) dqt in qfin f = false /\ qexited P_queue.code f = false /\ qpc f = 4%nat) /\
+  sendlog qlost_state = [(0%nat, 12)] /\
+  map snd (qresults (nth 2 (qthr qlost_state) dqt)) = [12] /\ getlog qlost_state = [12] /\
+  buf (nth 0 (procs qlost_state) dps) = [] /\ pipe qlost_state = [] /\ qv 0 qlost_state = 2.
+Proof. exact qlost_now_delivered. Qed.
+Print Assumptions C16_later_put_is_delivered.
 
 (* ---- JoinableQueue.join / task_done (PARTIAL: the counter and the two tests; the sleeping path
    of join -- wait / notify_all of the inner Condition -- is covered by monitors and by the
